@@ -206,7 +206,7 @@ pub fn def() -> PropDef {
         level: "exploration",
         rule: "histories of namespace/content/metadata ops and chunking-independent handle composites (write_all, read_exact, read_to_end, seek, set_len, flush, len, position), every new storage's times pinned through the public setters; each history runs under V3 and V4 x max_buffer_size in {0,1024,1500,65536,default} x backends {in-memory run 1, in-memory run 2, real std::fs::File in a scratch directory (with the history's reopen ops closing and reopening the path), choppy backend with generated short read/write counts and spurious Interrupted (3 plans per case)}; all results are compared with the model in every run (so they are equal across all runs), and within one (version, buffer size) the final images must be byte-identical; the final image is also opened through cfb::open(path). evaluations = executions. Non-trivial = history with a mini stream, a stream > 8 KiB and a removal, in which the choppy backend delivered a short read, a short write and an Interrupted; distinct = distinct case JSON.",
         assumptions: &["Interrupted is injected on read and write only and never twice in a row (std's retry loops make progress); seek is not interruptible in std's contract"],
-        quick_cases: 100,
+        quick_cases: 70,
         thorough_cases: 1500,
         worker,
         solo,
